@@ -28,6 +28,7 @@ Record mdecl := {
   md_rtc : bool;
   md_allow : bool;
   md_providers : list provider;           (* index 0 = machine, 1 = model, 2.. = listeners *)
+  md_coro : list cbref;                   (* the callbacks written as `async def` *)
   md_rounds : list (list nat) }.          (* resolution rounds: head = constructor (machine, model,
                                              constructor listeners), then one per add_listener call *)
 
@@ -130,10 +131,24 @@ Definition resolve_state (md : mdecl) (s : nat) (sd : sdecl) : rstate :=
   let r g := resolve_group (md_providers md) g (state_specs s sd g) (md_rounds md) in
   {| rs_enter := r GEnter; rs_exit := r GExit |}.
 
+(* CallbacksRegistry.async_or_sync: a wrapper counts as coroutine when it wraps exactly one callable
+   and that callable is a coroutine function (a conjunction of several providers is a plain closure) *)
+Definition wrapper_is_coro (md : mdecl) (w : wrapper) : bool :=
+  match w_cbs w with
+  | [c] => existsb (cbref_eqb c) (md_coro md)
+  | _ => false
+  end.
+
+Definition trans_wrappers (t : rtrans) : list wrapper :=
+  rt_validators t ++ rt_cond t ++ rt_before t ++ rt_on t ++ rt_after t.
+
 Definition resolve (md : mdecl) : rmachine :=
-  {| rm_states := mapi (resolve_state md) 0 (md_states md);
-     rm_trans := map (resolve_trans md) (md_trans md);
-     rm_start := md_start md; rm_rtc := md_rtc md; rm_allow := md_allow md |}.
+  let ss := mapi (resolve_state md) 0 (md_states md) in
+  let ts := map (resolve_trans md) (md_trans md) in
+  {| rm_states := ss; rm_trans := ts;
+     rm_start := md_start md; rm_rtc := md_rtc md; rm_allow := md_allow md;
+     rm_async := existsb (wrapper_is_coro md)
+                   (flat_map trans_wrappers ts ++ flat_map (fun s => rs_enter s ++ rs_exit s) ss) |}.
 
 (* StateMachine() raises InvalidDefinition iff this is false *)
 Definition check_ok (md : mdecl) : bool :=
